@@ -193,6 +193,14 @@ func absSchema(s any) any {
 				}
 			}
 			out[k] = l
+		case k == "enumT": // enum of a non-scalar schema: tagged values
+			l := []any{}
+			if ll, ok := v.([]any); ok {
+				for _, e := range ll {
+					l = append(l, taggedToJSON(e))
+				}
+			}
+			out["enum"] = l
 		case k == "default" || k == "example":
 			out[k] = taggedToJSON(v)
 		case scaledKeys[k]:
